@@ -248,3 +248,70 @@ class Ref:
         self.labels = [("u", i) for i in range(nm)] + [
             ("l", next(Ref._fresh)) for _ in range(u.shape[0] - nm)]
         self.U = np.array(u, dtype=complex)
+
+
+# --------------------------------------------------------------------------
+# detector pipeline (C07): documented model, written independently
+
+
+def _mode_dist(n: int, eta: float, p_dark: float, pnr: bool) -> dict:
+    """Distribution of the count registered on one mode that holds n photons:
+    each photon detected independently with probability eta, then at most one
+    dark count with probability p_dark, then (threshold detectors) cap at 1."""
+    out: dict = {}
+    for k in range(n + 1):
+        pk = math.comb(n, k) * eta ** k * (1 - eta) ** (n - k)
+        if pk == 0:
+            continue
+        for d, pd in ((0, 1 - p_dark), (1, p_dark)):
+            if pd == 0:
+                continue
+            c = k + d
+            if not pnr:
+                c = min(c, 1)
+            out[c] = out.get(c, 0.0) + pk * pd
+    return out
+
+
+def push_through_detector(pdist: dict, eta: float, p_dark: float, pnr: bool,
+                          heralds_out: dict, accept, min_detection: int,
+                          apply_efficiency: bool = True) -> dict:
+    """pdist: {tuple(full state): p}.  Returns {tuple(heralded-removed state): q}
+    (not renormalised: q sums to the accepted probability per input cycle)."""
+    total = sum(pdist.values())
+    res: dict = {}
+    hm = sorted(heralds_out)
+    for s, p in pdist.items():
+        p = p / total
+        per_mode = [_mode_dist(n, eta if apply_efficiency else 1.0, p_dark, pnr)
+                    for n in s]
+        # herald modes first: prune early
+        ph = 1.0
+        okh = True
+        for m in hm:
+            q = per_mode[m].get(heralds_out[m], 0.0)
+            if q == 0:
+                okh = False
+                break
+            ph *= q
+        if not okh:
+            continue
+        rest = [m for m in range(len(s)) if m not in heralds_out]
+        combos = [((), p * ph)]
+        for m in rest:
+            new = []
+            for st, q in combos:
+                for c, pc in per_mode[m].items():
+                    new.append(((*st, c), q * pc))
+            combos = new
+        for st, q in combos:
+            if sum(st) < min_detection:
+                continue
+            if not accept(st):
+                continue
+            res[st] = res.get(st, 0.0) + q
+    return res
+
+
+def bernstein_bound(q: float, n: int, big_l: float) -> float:
+    return math.sqrt(2 * q * (1 - q) * big_l / n) + 2 * big_l / (3 * n)
